@@ -186,8 +186,14 @@ class MonitoredList(MonitoredContainer, list):
         return list
 
     def extend(self, items):
-        for item in items:
+        # materialised first: the items may come from this list itself, or from a container that the inferences of
+        # the added items write to
+        for item in list(items):
             self._add_item(item)
+
+    def __iadd__(self, items):
+        self.extend(items)
+        return self
 
     def append(self, item):
         self._add_item(item)
@@ -205,8 +211,10 @@ class MonitoredList(MonitoredContainer, list):
         if isinstance(idx, slice):
             # the assigned iterable may be a one-shot one: it is recorded and stored from the same materialised values
             value = list(value)
-            if idx.step in (None, 1):
-                idx = slice(*idx.indices(len(self))[:2])
+            start, stop, step = idx.indices(len(self))
+            if step < 0 and stop < 0:
+                stop = None  # down to and including the first element
+            idx = slice(start, stop, step)
         elif idx < 0:
             idx += len(self)
         value = self._on_add(value)
@@ -239,9 +247,16 @@ class MonitoredSet(MonitoredContainer, set):
     def add(self, value):
         self._add_item(value)
 
-    def update(self, values):
-        for value in values:
-            self._add_item(value)
+    def update(self, *others):
+        for values in others:
+            # materialised first: the values may come from a container that the inferences of the added values
+            # write to
+            for value in list(values):
+                self._add_item(value)
+
+    def __ior__(self, values):
+        self.update(values)
+        return self
 
     def _add_item(
         self, value, inferred: bool = False, add_relation_to_the_graph: bool = True
